@@ -97,6 +97,77 @@ func Equal(a, b Value) bool {
 	return false
 }
 
+// isZeroValue: the evaluated value is the zero value of its type.
+func isZeroValue(v Value) bool {
+	switch x := v.(type) {
+	case nil, Nil:
+		return true
+	case Int:
+		return x.V == 0
+	case Str:
+		return x.V == ""
+	case Bool:
+		return !x.V
+	case Float:
+		return x.V == 0
+	case *Struct:
+		if x == nil {
+			return true
+		}
+		for _, f := range x.Fields {
+			if !isZeroValue(f) {
+				return false
+			}
+		}
+		return true
+	case *Slice:
+		if x == nil {
+			return true
+		}
+		if !x.IsArray {
+			return false
+		}
+		for _, e := range x.Elems {
+			if !isZeroValue(e) {
+				return false
+			}
+		}
+		return true
+	}
+	return false
+}
+
+// fullyKnown: the value contains no unknown part (so that == can be decided).
+func fullyKnown(v Value) bool {
+	switch x := v.(type) {
+	case Int, Str, Bool, Float, Nil:
+		return true
+	case *Struct:
+		if x == nil {
+			return false
+		}
+		for _, f := range x.Fields {
+			if !fullyKnown(f) {
+				return false
+			}
+		}
+		return true
+	case *Slice:
+		if x == nil {
+			return false
+		}
+		for _, e := range x.Elems {
+			if !fullyKnown(e) {
+				return false
+			}
+		}
+		return true
+	case *Ptr:
+		return false // pointer identity is not modelled
+	}
+	return false
+}
+
 // DeepEqual compares evaluated aggregates structurally (positions ignored; unknown values are never equal).
 func DeepEqual(a, b Value) bool {
 	switch x := a.(type) {
@@ -115,12 +186,24 @@ func DeepEqual(a, b Value) bool {
 		if !ok || y == nil || x == nil {
 			return ok && x == y
 		}
-		if x.Type != y.Type || len(x.Fields) != len(y.Fields) {
+		if x.Type != y.Type {
 			return false
 		}
+		// a field that a literal does not mention holds the zero value
 		for k, v := range x.Fields {
 			w, ok := y.Fields[k]
-			if !ok || !DeepEqual(v, w) {
+			if !ok {
+				if !isZeroValue(v) {
+					return false
+				}
+				continue
+			}
+			if !DeepEqual(v, w) {
+				return false
+			}
+		}
+		for k, w := range y.Fields {
+			if _, ok := x.Fields[k]; !ok && !isZeroValue(w) {
 				return false
 			}
 		}
@@ -747,6 +830,43 @@ func (ev *Evaluator) evalBinary(x *ast.BinaryExpr, env *Env) Value {
 			return Bool{a.V >= b.V}
 		}
 	}
+	// comparison of fully evaluated struct / array values
+	if x.Op == token.EQL || x.Op == token.NEQ {
+		// against nil: a map, slice, pointer or function the evaluator has built is not nil (a value it does not know is
+		// a Go-nil Value here and stays undecided)
+		for _, pr := range [][2]Value{{l, r}, {r, l}} {
+			if _, isNil := pr[0].(Nil); !isNil {
+				continue
+			}
+			switch o := pr[1].(type) {
+			case Nil:
+				return Bool{x.Op == token.EQL}
+			case *Map, *Ptr, *FuncRef:
+				_ = o
+				return Bool{x.Op == token.NEQ}
+			case *Call:
+				// an error value built by a constructor that never returns nil
+				switch o.Fn {
+				case "fmt.Errorf", "errors.New", "errors.Errorf":
+					return Bool{x.Op == token.NEQ}
+				}
+			case *Slice:
+				if !o.IsArray {
+					return Bool{x.Op == token.NEQ}
+				}
+			}
+		}
+		if ls, ok := l.(*Struct); ok {
+			if rs, ok := r.(*Struct); ok && fullyKnown(ls) && fullyKnown(rs) {
+				return Bool{DeepEqual(ls, rs) == (x.Op == token.EQL)}
+			}
+		}
+		if la, ok := l.(*Slice); ok && la.IsArray {
+			if ra, ok := r.(*Slice); ok && ra.IsArray && fullyKnown(la) && fullyKnown(ra) {
+				return Bool{DeepEqual(la, ra) == (x.Op == token.EQL)}
+			}
+		}
+	}
 	return ev.unk(x, "binary "+x.Op.String()+" on non-constant operands")
 }
 
@@ -1062,6 +1182,7 @@ const (
 
 type Frame struct {
 	Results []Value
+	named   []types.Object // named results of the function being evaluated (a bare `return` yields their values)
 }
 
 // FuncRef is a declared function of the package used as a value.
@@ -1183,6 +1304,25 @@ func (ev *Evaluator) Call(fd *ast.FuncDecl, bind map[string]Value) ([]Value, boo
 	bindField(fd.Recv)
 	bindField(fd.Type.Params)
 	fr := &Frame{}
+	if fd.Type.Results != nil {
+		for _, f := range fd.Type.Results.List {
+			for _, n := range f.Names {
+				o := ev.Info.Defs[n]
+				if o == nil || n.Name == "_" {
+					continue
+				}
+				var z Value
+				switch o.Type().Underlying().(type) {
+				case *types.Interface, *types.Pointer, *types.Map, *types.Slice, *types.Signature:
+					z = Nil{}
+				default:
+					z = ev.zero(o.Type())
+				}
+				env.Bind(o, z)
+				fr.named = append(fr.named, o)
+			}
+		}
+	}
 	c := ev.block(fd.Body.List, env, fr)
 	if c == ctlAbort {
 		return nil, false
@@ -1416,6 +1556,16 @@ func (ev *Evaluator) stmt(s ast.Stmt, env *Env, fr *Frame) ctl {
 		}
 		return ctlNone
 	case *ast.ReturnStmt:
+		if len(x.Results) == 0 && len(fr.named) > 0 {
+			for _, o := range fr.named {
+				p := env.lookup(o)
+				if p == nil {
+					return ev.abort(x, "named result not bound")
+				}
+				fr.Results = append(fr.Results, *p)
+			}
+			return ctlReturn
+		}
 		for _, r := range x.Results {
 			fr.Results = append(fr.Results, ev.Eval(r, env))
 		}
